@@ -182,6 +182,13 @@ type eCast struct {
 type eSub struct{ sel *selectStmt }
 
 // eRow: a row constructor (a, b, ...); eField: field selection (x).name on a composite value
+// eWindow: fn(arg) OVER (PARTITION BY ... ORDER BY ...) - only first_value is evaluated
+type eWindow struct {
+	fn        string
+	arg       sqlExpr
+	partition []sqlExpr
+	order     []orderItem
+}
 type eRow struct{ items []sqlExpr }
 type eField struct {
 	x    sqlExpr
@@ -1021,8 +1028,45 @@ func (p *sqlParser) primary() sqlExpr {
 			}
 		}
 		p.expectOp(")")
-		if p.isKw("over") || p.isKw("filter") {
-			p.fail("window / filtered aggregate")
+		if p.isKw("filter") {
+			p.fail("filtered aggregate")
+		}
+		if p.acceptKw("over") {
+			if f.name != "first_value" || len(f.args) != 1 {
+				p.fail("window function %s", f.name)
+			}
+			w := &eWindow{fn: f.name, arg: f.args[0]}
+			p.expectOp("(")
+			if p.acceptKw("partition") {
+				p.expectKw("by")
+				// `partition by (a, b)` and `partition by a, b` are both written in this repository
+				e := p.expr()
+				if row, ok := e.(*eRow); ok {
+					w.partition = row.items
+				} else {
+					w.partition = []sqlExpr{e}
+					for p.acceptOp(",") {
+						w.partition = append(w.partition, p.expr())
+					}
+				}
+			}
+			if p.acceptKw("order") {
+				p.expectKw("by")
+				for {
+					o := orderItem{e: p.expr()}
+					if p.acceptKw("desc") {
+						o.desc = true
+					} else {
+						p.acceptKw("asc")
+					}
+					w.order = append(w.order, o)
+					if !p.acceptOp(",") {
+						break
+					}
+				}
+			}
+			p.expectOp(")")
+			return w
 		}
 		return f
 	}
